@@ -383,6 +383,13 @@ class P(Prop):
         ("TracklibVerif.Props.C01", "TV.C01.history_aligned", "every state along every finite history is aligned"),
         ("TracklibVerif.Props.C01", "TV.C01.history_refines", "along every finite history outcomes equal the specification's and the tables correspond after every call"),
         ("TracklibVerif.Props.C01", "TV.C01.run_refines", "the final state of every finite history is aligned and corresponds to the specification's"),
+        ("TracklibVerif.Props.C01", "TV.C01.aligned_reads", "on an aligned table every row has one value per listed name, names are distinct, every listed name reads as a full column"),
+        ("TracklibVerif.Props.C01", "TV.C01.read_after_create", "create of a new name returns; the name reads as the initial values (scalar broadcast / list); every other name reads as before"),
+        ("TracklibVerif.Props.C01", "TV.C01.create_existing_noop", "creating an already listed name changes nothing"),
+        ("TracklibVerif.Props.C01", "TV.C01.read_after_update", "update of a listed name returns; the name reads as the new values; every other name reads as before"),
+        ("TracklibVerif.Props.C01", "TV.C01.read_after_setObs", "writing one cell changes that cell only"),
+        ("TracklibVerif.Props.C01", "TV.C01.read_after_remove", "deleting a listed feature (any column position) unlists it and leaves what is read under every other name unchanged"),
+        ("TracklibVerif.Props.C01", "TV.C01.prims_keep_coords", "create/update/remove/setObs on a feature name never touch X, Y, Z, T"),
         ("TracklibVerif.Props.C01", "TV.C01.no_temporaries", "after operate(str) no listed name starts with '#', whether evaluation returned or raised"),
     ]
     partial = []
